@@ -153,13 +153,13 @@ PROPS = {
                 dict(suite="print", n_quick=1000, n_thorough=50000, what="trees x configurations: code",
                      projection=CODE_ONLY)],
         oracle_n_quick=300, oracle_n_thorough=20000,
-        explanation="C07: C07_string, C07_string_printed, C07_backtick, C07_utf8, C07_number_printed.",
+        explanation="C07: C07_string, C07_string_printed, C07_backtick, C07_utf8, C07_number_printed, C07_valid_strings_stable.",
         assumptions=["legacy octal escapes and other escapes that are syntax errors in strict mode are outside the subset (SV = None)",
                      "source text is well-formed UTF-8"],
     ),
     "C03": dict(
         design_ref="DESIGN.md 4 (C03)",
-        level_text="Coq theorems over the printer regenerated from ast.go, the writer, lexer and parser models and the grammar specification: the printer's precedence of every node kind is its ECMAScript level (member 12 vs LeftHandSide 11 is never separated by a printer test); for EVERY assembled expression tree with arbitrary operands (callee/object positions call-level-or-tighter, simple assignment targets) the parentheses the printer writes make it a tree of the grammar; it is the same tree up to grouping nodes, prints to the same compact text, and parenthesisation is idempotent; and TEXT LEVEL: printing such a tree compactly (parentheses, fusion-avoiding blanks, re-quoted strings), lexing the text and parsing the tokens yields without error the parenthesised tree - the same tree up to grouping nodes, positions and comments - for all trees whose stored literals are lexer-producible (C03_print_parse_compact). Pretty configurations and statement-level assembled trees are explored by the oracle with every parent/child operator pair to depth 3 (KF4 dangling else on assembled trees is reported there).",
+        level_text="Coq theorems over the printer regenerated from ast.go, the writer, lexer and parser models and the grammar specification: the printer's precedence of every node kind is its ECMAScript level (member 12 vs LeftHandSide 11 is never separated by a printer test); for EVERY assembled expression tree with arbitrary operands (callee/object positions call-level-or-tighter, simple assignment targets) the parentheses the printer writes make it a tree of the grammar; it is the same tree up to grouping nodes, prints to the same compact text, and parenthesisation is idempotent; and TEXT LEVEL: printing such a tree compactly (parentheses, fusion-avoiding blanks, re-quoted strings), lexing the text and parsing the tokens yields without error the parenthesised tree - the same tree up to grouping nodes, positions and comments - for all trees whose stored literals are lexer-producible (C03_print_parse_compact), and the same through EVERY pretty configuration (any blank indent, semicolons on or off, map on or off: C03_print_parse_pretty; comment-free tokens, no line of a multi-line literal ending in a blank). Statement-level assembled trees are explored by the oracle with every parent/child operator pair to depth 3 (KF4 dangling else on assembled trees is reported there).",
         level_note="Trusted: Coq kernel, translator xjs2v (WriteTo bodies, both precedence tables), extraction, harness/driver correspondence (print suite with assembled trees), Grammar.v. Modelled not verified: CodeWriter. Recorded findings on assembled trees: KF4 (dangling else); semicolons-off hazards KF1/KF2; KF3.",
         technique="Coq proof (tree induction against the grammar's level discipline) + model/implementation correspondence",
         suites=[dict(suite="print", n_quick=2000, n_thorough=50000, what="parser-produced and assembled trees x configurations: code, panic",
@@ -167,8 +167,8 @@ PROPS = {
                 dict(suite="parse", n_quick=1500, n_thorough=50000, what="re-parse side: trees, errors",
                      projection=POS_FREE)],
         oracle_n_quick=300, oracle_n_thorough=20000,
-        explanation="C03: C03_precedences_agree, C03_parenthesised_is_wf, C03_same_tree, C03_same_text, C03_groupify_idempotent, C03_print_parse_compact.",
-        open_statements=["C03_print_parse_pretty (the round trip through pretty configurations): explored by the oracle; false with semicolons off (KF1, KF2)"],
+        explanation="C03: C03_precedences_agree, C03_parenthesised_is_wf, C03_same_tree, C03_same_text, C03_groupify_idempotent, C03_print_parse_compact, C03_print_parse_pretty.",
+        open_statements=["statement-level ASSEMBLED trees (dangling else on an assembled if/else: KF4) are explored by the oracle; parsed programs are covered by C01_compact_round_trip / C06_pretty_round_trip"],
     ),
     "C15": dict(
         design_ref="DESIGN.md 4 (C15)",
